@@ -143,6 +143,50 @@ def fault_straddle(data, o, rng):
     return cur, recs
 
 
+def fault_nested_pair(data, o, rng):
+    """two cooperating size faults on nested regions: the outer one (A, itself nested in something) declares an end at /
+    beyond / far beyond the end of its enclosing region (so it is *anticipated*, not entered normally), the inner one (B,
+    inside A) ends inside a multi-byte field, one byte short or a few bytes long - recovery of B must still be
+    charged to every region around A"""
+    size_item = {ri: idx for idx, ri in o.sizefields}
+    regs = [(ri, r) for ri, r in enumerate(o.regions) if r.max is not None and ri in size_item]
+    pairs = []
+    for ai, a in regs:
+        if depth_at(o, o.items[size_item[ai]][4]) < 1:
+            continue        # A must have an enclosing region
+        for bi, b in regs:
+            if bi != ai and a.start <= b.start and b.start + b.max <= a.start + a.max and size_item[bi] > size_item[ai] and b.max >= 2:
+                pairs.append((ai, bi))
+    if not pairs:
+        return None
+    ai, bi = rng.choice(pairs)
+    a, b = o.regions[ai], o.regions[bi]
+    ita, itb = o.items[size_item[ai]], o.items[size_item[bi]]
+    va = size_variants(o, size_item[ai])
+    beyond = va[10:] or va
+    new_a = rng.choice(beyond if rng.random() < 0.7 else va)
+    inner = [it for it in o.items[size_item[bi] + 1:] if it[0] == "P" and it[5] >= 2 and b.start <= it[4] and it[4] + it[5] <= b.start + b.max]
+    r = rng.random()
+    if inner and r < 0.6:
+        it = rng.choice(inner)
+        new_b = it[4] + rng.randint(1, it[5] - 1) - b.start
+        delta = "straddle"
+    elif r < 0.8:
+        new_b = b.max - rng.randint(1, min(4, b.max))
+        delta = "minus"
+    else:
+        new_b = b.max + rng.randint(1, 4)
+        delta = "plus"
+    cur = put(data, ita, new_a)
+    if cur is None:
+        return None
+    cur2 = put(cur, itb, new_b)
+    if cur2 is None or new_b < 0:
+        return None
+    return cur2, [_rec("size", o, ita, size_item[ai], old=ita[3], new=new_a, region=a.kind, delta="beyond" if new_a in beyond else "variant"),
+                  _rec("size", o, itb, size_item[bi], old=itb[3], new=new_b, region=b.kind, delta=delta)]
+
+
 def fault_count(data, o, rng):
     if not o.counts:
         return None
